@@ -15,6 +15,9 @@ Collapse.tla (the loop Solve -> Collapse -> Solve ... as a state machine), Trace
               (2) every reachable stop of the loop machine with the collapses applied before it, replayed on real
               solver objects through Collapse(): members named, reported collapse, masks afterwards, and the
               solver's constraints applied to every point of the domain (harness/c11_loop.replay_stop).
+  embedding   the specifications number their parameters 0..N-1; harness/c11_embed.py also places them at rotating real
+              positions (>= 8, non-monotone) of 12-dimensional monitors and solvers, so that code relying on the iteration
+              order of a collapse set (ascending only below 8) shows; expectations stay TLC's.
   code->spec  real DE / DE2 / Nelder-Mead / Powell runs (Solve() and manual Step()/Collapse() loops) on objectives
               with flat and tied directions under Or(stop, CollapseAt, CollapseAs); every run is validated by TLC
               against Trace_Collapse.tla (harness/c11_loop.record_run / validate).
@@ -60,6 +63,8 @@ def plan(thorough):
     if thorough:
         design.append(("design:n3", "term/MC_Collapse", "MC_Collapse_n3.cfg"))
     script = [("script", "term/MC_Collapse", "MC_Collapse_script_%s.cfg" % t)]
+    if thorough:       # 3 parameters, ties only: pairs sharing a member tied by successive collapses
+        script.append(("script:n3chain", "term/MC_Collapse", "MC_Collapse_script_n3.cfg"))
     refute = [("refute:asis", "term/MC_Collapse", "MC_Collapse_asis.cfg", "EvalSatisfies"),
               ("refute:replace", "term/MC_Collapse", "MC_Collapse_replace.cfg", "NeverTwice"),
               ("refute:keep", "term/MC_Collapse", "MC_Collapse_keep.cfg", "CollapseBound")]
@@ -133,7 +138,18 @@ def drivers(thorough, seed):
                         runs.append({"name": name, "kind": kind, "n": n, "conf": cf, "obj": obj, "mode": md, "stop": stop,
                                      "seed": seed * 1000 + k * 17 + n, "x0": (X0FLAT2 if name.startswith("flat2") else X0)[:n], "gens": gens, "npop": 6,
                                      "evals": 600})
-    return runs
+    # a share of the runs (every third, and every per-parameter-target run) once more in a 12-dimensional solver, the
+    # specification's parameters at rotating positions such as [1, 8], [9, 2, 11] (harness/c11_embed.py); the filler
+    # parameters are named in the initial masks and enter the cost only weakly
+    from harness.c11_embed import MAPS, DIM
+    extra = []
+    for i, r in enumerate(runs):
+        if i % 3 == 1 or r["name"] == "origin:at-list":
+            maps = MAPS[r["n"]][1:]
+            e = dict(r, pm=maps[(i // 3 + len(extra)) % len(maps)], dim=DIM, evals=3000,
+                     gens={"DE": 40, "DE2": 40, "NM": 240, "PW": 12}[r["kind"]])
+            extra.append(e)
+    return runs + extra
 
 
 # ------------------------------------------------------------------------------------------------------
@@ -212,7 +228,7 @@ def explore(ck, a, light=False):
             states = states[::3]
         # round-robin chunks: the short histories (which carry the mask catalogue) come first in TLC's BFS order
         nch = max(1, min(len(states), 8 * nproc))
-        for n, k, viol, perkey in ppool.imap_unordered(D.replay_chunk, [(hdr, states[j::nch]) for j in range(nch)]):
+        for n, k, viol, perkey in ppool.imap_unordered(D.replay_chunk, [(hdr, states[j::nch], 2 if item[0].startswith("cases:param:p") else 1) for j in range(nch)]):
             ck.evaluations += n
             ck.nontrivial_anon += k
             ndet += n
@@ -231,29 +247,30 @@ def explore(ck, a, light=False):
     ck.extra["detector_cases"] = ndet
 
     # ---- spec -> code (2): the loop stops
-    r = futs["script"].result()
-    mark("script-tlc")
-    ck.mc(r, "Collapse.tla stops with scripts (%s)" % script[0][2])
-    if r.violated:
-        ck.violation("spec:" + r.violated, {"tlc": r.out[-3000:]}, "design invariant %s violated in Collapse.tla (script run)" % r.violated)
-    vals = sorted(set(v for cc in r.printed for p in cc["h"] for v in p))
     nstop = 0
-    stops = list(enumerate(r.printed))
-    if light:
-        stops = stops[::2]
-    work = [(part, vals) for part in chunks(stops, 1 + len(stops) // (4 * nproc))]
-    for out in ppool.map(L.replay_stops_chunk, work):
-        for i, nt, viol in out:
-            ck.case(nontrivial=nt, key=("stop", i))
-            ck.trace()
-            nstop += 1
-            for key, detail, what in viol:
-                ck.violation(key, detail, what)
-    if r.printed:
-        c = r.printed[len(r.printed) // 2]
-        ck.sample({"loop_stop": {"script": c["script"], "history": c["h"], "len": c["l"], "members": c["msg"]},
-                   "specification": {"reported_pins": c["ra"], "reported_ties": c["rs"], "masks_after": c["mk"],
-                                     "points_breaking_a_relation": c["bad"][:3]}})
+    for sitem in script:
+        r = futs[sitem[0]].result()
+        mark(sitem[0] + "-tlc")
+        ck.mc(r, "Collapse.tla stops with scripts (%s)" % sitem[2])
+        if r.violated:
+            ck.violation("spec:" + r.violated, {"tlc": r.out[-3000:]}, "design invariant %s violated in Collapse.tla (%s)" % (r.violated, sitem[2]))
+        vals = sorted(set(v for cc in r.printed for p in cc["h"] for v in p))
+        stops = list(enumerate(r.printed))
+        if light:
+            stops = stops[::2]
+        work = [(part, vals) for part in chunks(stops, 1 + len(stops) // (4 * nproc))]
+        for out in ppool.map(L.replay_stops_chunk, work):
+            for j, (i, nt, viol) in enumerate(out):      # every stop twice: as it is, and embedded at rotating positions
+                ck.case(nontrivial=nt, key=("stop", sitem[0], i, j % 2))
+                ck.trace()
+                nstop += 1
+                for key, detail, what in viol:
+                    ck.violation(key, detail, what)
+        if r.printed and sitem is script[0]:
+            c = r.printed[len(r.printed) // 2]
+            ck.sample({"loop_stop": {"script": c["script"], "history": c["h"], "len": c["l"], "members": c["msg"]},
+                       "specification": {"reported_pins": c["ra"], "reported_ties": c["rs"], "masks_after": c["mk"],
+                                         "points_breaking_a_relation": c["bad"][:3]}})
     ck.extra["loop_stops_replayed"] = nstop
     mark("stops-replayed")
 
@@ -329,6 +346,14 @@ def explore(ck, a, light=False):
         "look-back windows of the termination conditions are integers >= 0 (generations=None raises in the conditions themselves)",
         "product measures have equal-sized factors (Monitor.wts/pos and tools.measure_indices are only defined for them)",
         "the empty 'where' mask of collapse_position is () -- ((), ()) is rejected by its own input validation",
+        "embedding (harness/c11_embed.py): the specification's parameters 0..N-1 are also placed at rotating real positions such as "
+        "[1,8], [8,1], [9,2,11], [3,8,1] of 12-dimensional monitors / solvers (every parameter history of the case tables [every "
+        "second one of the largest table], every loop stop, a third of the recorded runs and all per-parameter-target runs); "
+        "the FILLER parameters never collapse: in monitors they move by >= 50 per record (tolerances <= 2), their distances to "
+        "each other and to embedded parameters change by >= 50 per record, their per-parameter targets are -1000; for the "
+        "spread tests (target=None, offset=True), which report everything on a one-record window, and in recorded runs the "
+        "fillers are named in the masks; a filler that is reported or constrained is a violation; under an embedding mask "
+        "pairs are compared without orientation (a mask pair counts in either orientation)",
         "relations applied so far are jointly satisfiable: nothing is demanded of a tie-connected component pinned at two different values",
         "target=None pins a parameter at whatever value the first evaluation after the collapse shows (it must then stay there)",
         "recorded runs: deterministic objectives sum w_k (x_k-a_k)^2 + sum (x_i-x_j)^2; every run has generation and evaluation limits; "
